@@ -229,6 +229,55 @@ def check(run):
             else:
                 ill_stats[why] = ill_stats.get(why, 0) + 1
         shutil.rmtree(root, ignore_errors=True)
+        # ---- every pair of distinct types: a value of one is never accepted where the other is expected -------------------
+        UT = ["int32", "int64", "uint8", "bool", "string", "unit", "float64", "(int32, bool)", "(bool, int32)", "(int32, bool, string)", "[int32; 2]", "[int32; 3]", "[bool; 2]",
+              "Vec[int32]", "Vec[bool]", "Ref[int32]", "Ref[bool]", "Ref[Vec[int32]]", "Vec[Ref[int32]]", "Up", "Uq", "Ue", "Ub[int32]", "Ub[bool]", "Uo[int32]", "Uo[Ub[int32]]",
+              "(int32) -> int32", "(int32) -> bool", "(int32, int32) -> int32", "() -> int32", "dyn Ut", "dyn Uu"]
+        UHEAD = ("struct Up { a: int32 }\nstruct Uq { a: int32 }\nenum Ue { Ua, Ub_(int32) }\nstruct Ub[T] { v: T }\nenum Uo[T] { Un, Us(T) }\n"
+                 "trait Ut { fn ut(Self) -> int32; }\ntrait Uu { fn ut(Self) -> int32; }\nimpl Ut for int32 { fn ut(self: int32) -> int32 { self } }\nimpl Uu for int32 { fn ut(self: int32) -> int32 { self } }\n")
+        USES = [("ref_get(x)", "Ref"), ("ref_set(x, ref_get(x))", "Ref"), ("vec_len(x)", "Vec"), ("vec_get(x, 0)", "Vec"), ("vec_push(x, vec_get(x, 0))", "Vec"), ("array_get(x, 0)", "["), ("string_len(x)", "string"), ("x.0", "("), ("x.a", "U"), ("x.v", "Ub"), ("x(1)", "(int32) ->"), ("!x", "bool"), ("x + x", "")]
+        pairs = [(a, b) for a in UT for b in UT if a != b]
+        if run.tier == "quick":
+            pairs = rng.sample(pairs, 260)
+        u_srcs, u_why = [], []
+        for a, b in pairs:
+            form = rng.choice(["ret", "let", "arg"])
+            if form == "ret":
+                body = "fn conv(x: %s) -> %s { x }\n" % (a, b)
+            elif form == "let":
+                body = "fn conv(x: %s) -> int32 { let y: %s = x; 0 }\n" % (a, b)
+            else:
+                body = "fn want(y: %s) -> int32 { 0 }\nfn conv(x: %s) -> int32 { want(x) }\n" % (b, a)
+            if b.startswith("dyn ") and form != "arg":
+                continue  # an annotated let / result position may coerce a value to a trait object
+            u_srcs.append(UHEAD + body + "fn main() { () }\n")
+            u_why.append("a value of type %s where %s is expected (%s)" % (a, b, form))
+        for use, need in USES:
+            for a in UT:
+                ok_ = (need and a.startswith(need)) or (use == "x + x" and a in ("int32", "int64", "uint8", "float64", "string")) or (use == "x.a" and a in ("Up", "Uq")) or (use == "x(1)" and a.startswith("(int32) ->"))
+                if ok_ or (use == "x.a" and not a.startswith("U")):
+                    continue
+                u_srcs.append(UHEAD + "fn conv(x: %s) -> unit { let _ = %s; () }\nfn main() { () }\n" % (a, use))
+                u_why.append("`%s` on a value of type %s" % (use, a))
+        uroot, upaths = semrun.write_programs("c03uni", u_srcs)
+        ures = vlib.run_harness("compile", [{"path": p_, "timeout_ms": 20000} for p_ in upaths], shards=vlib.NCPU)
+        for why, src, r in zip(u_why, u_srcs, ures):
+            if r.get("ok"):
+                wits.append({"kind": "an ill-typed program was accepted: " + why, "program": src})
+            elif "panic" in r or r.get("timeout"):
+                wits.append({"kind": "panic/hang instead of a type diagnostic: " + why, "program": src, "impl": {k: v for k, v in r.items() if k != "go"}})
+            elif not r.get("diagnostics"):
+                wits.append({"kind": "rejected without a diagnostic: " + why, "program": src})
+            else:
+                ill_stats["type confusion matrix"] = ill_stats.get("type confusion matrix", 0) + 1
+        shutil.rmtree(uroot, ignore_errors=True)
+        # a sanity row: the same shapes with equal types are accepted (the matrix rejects for the right reason)
+        sane = [UHEAD + "fn conv(x: %s) -> %s { x }\nfn want(y: %s) -> int32 { 0 }\nfn conv2(x: %s) -> int32 { let y: %s = x; want(y) }\nfn main() { () }\n" % (a, a, a, a, a) for a in UT]
+        sroot, spaths = semrun.write_programs("c03unis", sane)
+        for a, r in zip(UT, vlib.run_harness("compile", [{"path": p_, "timeout_ms": 20000} for p_ in spaths], shards=vlib.NCPU)):
+            if not r.get("ok"):
+                broken.append(Broken("generator", "C03 type matrix: the identity at type %s is rejected: %s" % (a, json.dumps(r.get("diagnostics"))[:300])))
+        shutil.rmtree(sroot, ignore_errors=True)
         # ---- the same single errors inside an imported package (not the entry package) of a project -----------------------
         LIB_ILL = [(w_, s_) for w_, s_ in ILL if not any(x in s_ for x in ("pi(", "P {", "B(", "C(", "Tick", " A "))]
         pbase = os.path.join(vlib.BUILD, "tmp", "c03illproj")
